@@ -77,7 +77,9 @@ def _eval(res, name, m, gname, shape, opts, v, stats, observed=None):
         alphabet |= set(e2.same_class(v[p]))
     if len(pos) == 1 and v[pos[0]] in e2.D + 'XK':
         alphabet |= set('XK')
-    if observed:
+    if observed and len(pos) == 1:
+        # single check characters: the alphabet observed at that position over all explored valid numbers
+        # (multi-digit numeric checks are compared over digits only)
         for p in pos:
             alphabet |= observed.get((len(v), p), set())
     for p in pos:
